@@ -27,6 +27,13 @@ M = [
  ('trigger statement drops the result slot', 'C01', '`trigger cb at minute(5);` left a nil operand-stack slot per statement (stack residue at exit)'),
  ('operand-stack overflow in the outermost frame', 'C09', 'any program whose operand stack exceeds StackMaxSize while `main` is the only frame (e.g. StackMaxSize=1 and `total += rec(0)` in main): Go panic "index out of range [-1]" in Core.Run instead of a StackOverflow interrupt'),
  ('displayed with their fields in sorted order', 'C14', '`println(new { b: 1, a: 2 })`: one rotated map iteration in ValueObject.Display (either runtime) printed the fields in another order'),
+ ('a closure literal no longer replaces', 'C03', '`fn main() { loop { let c = fn() { break; }; } }` was accepted; `fn f() -> int { let c = fn() {}; return 1; }` was rejected (return checked against the closure)'),
+ ('function types keep their parameters', 'C03', '`fn apply(f: fn(x: int) -> int, v: int) -> int { f(v) }` was rejected with "Expected 0 parameters (), got 1"; unknown types inside fn types were accepted'),
+ ('`%=` is rejected on float operands', 'C03', '`let x = 1.5; x %= 2.0;` was accepted (and then panicked both backends)'),
+ ('inside a global initialiser no longer dereferences', 'C05', '`let f = main; fn main() {}`: nil pointer dereference in Analyzer.identExpression'),
+ ('`spawn` of something that is not a function', 'C05', '`fn main() { spawn undefined_name(); }`: nil pointer dereference in Analyzer.callExpression'),
+ ('whether a `loop` terminates is decided by its own body', 'C03', '`fn g() { throw("x"); } fn f() -> int { loop { return 1; } }` was rejected with "Mismatched types" because an earlier diverging expression left CurrentLoopIsTerminated set'),
+ ('evaluates the arguments of a closure call in the caller', 'C02', '`fn apply(f: fn(x: int) -> int, v: int) -> int { f(f(v)) }` called with a closure literal: interpreter panic in getVar ("Variable \'f\' not found")'),
 ]
 log = subprocess.check_output(['git', '-C', '/repo', 'log', '--reverse', '--format=%h %s']).decode().splitlines()
 fixed, unmatched = [], []
